@@ -30,9 +30,18 @@ CMPOPS = {ast.Eq: "eq", ast.NotEq: "ne", ast.Lt: "lt", ast.LtE: "le", ast.Gt: "g
 # ufunc / function spellings of operators
 UFUNC2 = {"np.logical_or": "or_", "np.logical_and": "and_", "np.bitwise_or": "or_", "np.bitwise_and": "and_", "np.add": "add",
           "np.subtract": "sub", "np.multiply": "mul", "np.divide": "div", "np.true_divide": "div", "np.matmul": "matmul",
-          "np.greater": "gt", "np.less": "lt", "np.greater_equal": "ge", "np.less_equal": "le", "operator.add": "add", "operator.mul": "mul"}
+          "np.greater": "gt", "np.less": "lt", "np.greater_equal": "ge", "np.less_equal": "le", "np.equal": "eq", "np.not_equal": "ne",
+          "np.bitwise_xor": "xor", "np.logical_xor": "xor", "np.floor_divide": "floordiv", "np.power": "pow",
+          "operator.add": "add", "operator.mul": "mul", "operator.sub": "sub", "operator.truediv": "div", "operator.matmul": "matmul",
+          "operator.floordiv": "floordiv", "operator.mod": "mod", "operator.pow": "pow", "operator.and_": "and_", "operator.or_": "or_",
+          "operator.xor": "xor", "operator.gt": "gt", "operator.lt": "lt", "operator.ge": "ge", "operator.le": "le", "operator.eq": "eq",
+          "operator.ne": "ne", "operator.is_": "is", "operator.is_not": "isnot"}
 UFUNC1 = {"np.logical_not": "inv", "np.invert": "inv", "np.bitwise_not": "inv", "np.negative": "neg", "abs": "abs", "np.abs": "abs",
-          "np.absolute": "abs", "np.fabs": "abs", "operator.neg": "neg"}
+          "np.absolute": "abs", "np.fabs": "abs", "operator.neg": "neg", "operator.abs": "abs", "operator.inv": "inv", "operator.invert": "inv",
+          "operator.not_": "not"}
+# module spellings: `import numpy as xp`, `from operator import gt` resolve to the dotted names the rules use
+CANON_MODULES = {"numpy": "np", "scipy.linalg": "la", "operator": "operator", "copy": "copy", "functools": "functools", "contextlib": "contextlib",
+                 "types": "types", "math": "math", "itertools": "itertools", "builtins": ""}
 ALLOC = {"np.empty", "np.zeros", "np.ones", "np.full", "np.empty_like", "np.zeros_like", "np.ones_like", "np.full_like"}
 COPIERS = {"copy.copy", "copy.deepcopy", "np.array", "np.copy", "list", "np.ascontiguousarray_copy"}
 # positional parameter names of library functions (so that keyword and positional spellings are one value)
@@ -100,6 +109,11 @@ class _LoopCtl(Exception):
     pass
 
 
+class _Rel:
+    def __init__(self, rel):
+        self.rel = rel
+
+
 class Frame:
     def __init__(self, parent=None, cls=None, rel=None):
         self.locals = {}
@@ -129,6 +143,7 @@ class Path:
         self.loops = []
         self.depth = 0
         self.trycount = {}
+        self.fndefaults = {}    # nested function -> values of its defaults (evaluated at the `def`)
 
     # ------------------------------------------------------------------ helpers for rules
     def obj(self, t):
@@ -201,7 +216,10 @@ class Path:
             if o.kind == "arr" and o.none_like is not None and name not in ("T", "shape", "ndim", "size", "dtype", "base", "real", "imag", "flat"):
                 return self._getattr(o.none_like, name)        # copy.copy(obj) is shallow: its members are the source's
         if base[0] == "g":
-            return ("g", base[1] + "." + name)
+            d = base[1] + "." + name
+            if d == "np.newaxis":
+                return NONE
+            return ("g", CANON_MODULES.get(d) or d)
         if base == ("s", "self") and self.I.cls and self.I.method(name) is not None:
             return self._fnval(self.I.method(name), None, base)
         r = ("attr", self._cur(base), name)
@@ -232,6 +250,12 @@ class Path:
                 return ("op", "in", t[2], t[3]), False
             if n == "gt" and t[3] == ("c", 0) and self._nonneg(t[2]):
                 return ("truth", t[2]), True
+            if n == "ge" and t[3] == ("c", 1) and self._nonneg(t[2]):        # x >= 1  <=> x   (a count)
+                return ("truth", t[2]), True
+            if n == "gt" and t[2] == ("c", 1) and self._nonneg(t[3]):        # 1 > x   <=> not x
+                return ("truth", t[3]), False
+            if n == "eq" and ("c", 0) in t[2:] and self._nonneg(t[3] if t[2] == ("c", 0) else t[2]):
+                return ("truth", t[3] if t[2] == ("c", 0) else t[2]), False
             if n == "ge" and t[2] == ("c", 0) and self._nonneg(t[3]):        # 0 >= x  <=> not x
                 return ("truth", t[3]), False
             if n == "ne" and ("c", 0) in t[2:] and self._nonneg(t[3] if t[2] == ("c", 0) else t[2]):
@@ -365,6 +389,9 @@ class Path:
             return self.eval(v, Frame(rel=rel))
         if name in ("None", "True", "False"):
             return ("c", {"None": None, "True": True, "False": False}[name])
+        al = self.I.modimports(rel).get(name)
+        if al is not None:
+            return ("g", al)
         names = self.I.modnames(rel)
         if names is not None and name not in names and not name.startswith("<"):
             self._ev("unbound", name=name, node=self.curnode)
@@ -424,19 +451,123 @@ class Path:
                 o.items[self.eval(k, fr)] = self.eval(v, fr)
             return r
         if isinstance(n, ast.JoinedStr):
-            return ("c", "<fstring>")
+            parts = []
+            for v in n.values:
+                if isinstance(v, ast.Constant) and isinstance(v.value, str):
+                    parts.append(v.value)
+                    continue
+                x = self.eval(v.value, fr) if isinstance(v, ast.FormattedValue) else None
+                if x is not None and v.conversion == -1 and v.format_spec is None and is_const(x) and isinstance(x[1], (str, int)) \
+                        and not isinstance(x[1], bool) and x[1] != "<fstring>":
+                    parts.append(str(x[1]))
+                else:
+                    parts = None
+                    break
+            if parts is None:
+                # (the remaining pieces are still evaluated above only up to the first unknown one: messages have no effects)
+                return ("c", "<fstring>")
+            return ("c", "".join(parts))
         if isinstance(n, ast.Starred):
             return ("star", self.eval(n.value, fr))
-        if isinstance(n, (ast.ListComp, ast.DictComp, ast.SetComp, ast.GeneratorExp, ast.Lambda)):
-            return ("call", "<" + type(n).__name__ + ">", (("c", ast.dump(n)[:300]),), ())
+        if isinstance(n, ast.Lambda):
+            return self._fnval(self._lambda_def(n, fr), fr)
+        if isinstance(n, (ast.ListComp, ast.DictComp, ast.SetComp, ast.GeneratorExp)):
+            return self._comprehension(n, fr)
         raise Unsupported(f"expression {type(n).__name__}")
 
     def _decidable(self, n, fr):
         return False
 
+    def _lambda_def(self, n, fr):
+        """a lambda is a function whose body is one return statement"""
+        cache = self.I._mc.setdefault("lambdas", {})
+        fd = cache.get(id(n))
+        if fd is None:
+            ret = ast.Return(value=n.body)
+            ast.copy_location(ret, n)
+            fd = ast.FunctionDef(name="<lambda>", args=n.args, body=[ret], decorator_list=[], returns=None, type_comment=None)
+            ast.copy_location(fd, n)
+            fd._vmod = _Rel(fr.rel)
+            cache[id(n)] = fd
+        return fd
+
+    def _iter_items(self, it):
+        """the elements of an iterable whose content is known (literal tables, enumerate / zip / range over them), or None"""
+        if it[0] in ("tup", "lst"):
+            return list(it[1:])
+        if is_const(it) and isinstance(it[1], str) and len(it[1]) <= 64:
+            return [("c", ch) for ch in it[1]]
+        o = self.obj(it)
+        if o is not None and o.kind == "dict" and o.closed:
+            return list(o.items)
+        return None
+
+    def _comprehension(self, n, fr):
+        """literal tables are unrolled; any other iterable is evaluated once on a generic element (calls and stores inside are recorded)"""
+        kind = type(n).__name__
+        nf = Frame(parent=fr, rel=fr.rel)
+        if len(n.generators) != 1 or n.generators[0].is_async:
+            return ("call", "<" + kind + ">", (("c", ast.dump(n)[:300]),), ())
+        g = n.generators[0]
+        it = self.eval(g.iter, fr)
+        items = self._iter_items(it)
+        out = []
+
+        def one(x):
+            self.assign(g.target, x, nf, n)
+            for c in g.ifs:
+                if not self.test(c, nf):
+                    return
+            if isinstance(n, ast.DictComp):
+                out.append((self.eval(n.key, nf), self.eval(n.value, nf)))
+            else:
+                out.append(self.eval(n.elt, nf))
+
+        if items is not None:
+            for x in items:
+                one(x)
+            if isinstance(n, ast.DictComp):
+                r = self._alloc("dict", ("c", "{}"))
+                for k, v in out:
+                    self.obj(r).items[k] = v
+                return r
+            return (("lst",) if isinstance(n, ast.ListComp) else ("tup",)) + tuple(out)
+        self.loops = self.loops + [it]
+        try:
+            one(("elem", it))
+        finally:
+            self.loops = self.loops[:-1]
+        if isinstance(n, ast.DictComp):
+            r = self._alloc("dict", ("call", "<DictComp>", (it,), ()))
+            o = self.obj(r)
+            o.closed = False
+            for k, v in out:
+                o.items[k] = v
+                self.loops = self.loops + [it]
+                self._ev("store", target=r, index=k, value=v, node=n, aug=False)
+                self.loops = self.loops[:-1]
+            return r
+        t = ("call", "<" + kind + ">", (it,) + tuple(out), ())
+        return self._alloc("list", t) if isinstance(n, ast.ListComp) else t
+
     def _binop(self, name, a, b):
         if name == "mul" and (a[0] == "lst" or b[0] == "lst"):
             return self._alloc("list", op("mul", a, b))           # n * [x]: a new list
+        if is_const(a) and is_const(b) and isinstance(a[1], str) and a[1] != "<fstring>":
+            # names built from literal pieces ("m" + side, "%s_x" % name) are literal names
+            try:
+                if name == "add" and isinstance(b[1], str) and b[1] != "<fstring>":
+                    return ("c", a[1] + b[1])
+                if name == "mod" and isinstance(b[1], (str, int)) and b[1] != "<fstring>":
+                    return ("c", a[1] % b[1])
+            except Exception:  # noqa
+                pass
+        if name == "mod" and is_const(a) and isinstance(a[1], str) and b[0] == "tup" and all(is_const(x) and isinstance(x[1], (str, int)) and x[1] != "<fstring>"
+                                                                                               for x in b[1:]):
+            try:
+                return ("c", a[1] % tuple(x[1] for x in b[1:]))
+            except Exception:  # noqa
+                pass
         if is_const(a) and is_const(b) and isinstance(a[1], (int, float)) and isinstance(b[1], (int, float)) \
                 and not isinstance(a[1], bool) and not isinstance(b[1], bool):
             try:
@@ -448,6 +579,24 @@ class Path:
         return op(name, a, b)
 
     def _load(self, b, i):
+        if b in (("g", "np.s_"), ("g", "np.index_exp")):
+            # np.s_[a:b] is the slice object itself
+            if b[1] == "np.s_" and i[0] == "slice":
+                return ("call", "slice", tuple(i[1:]), ())
+            if i[0] == "tup":
+                return ("tup",) + tuple(("call", "slice", tuple(x[1:]), ()) if x[0] == "slice" else x for x in i[1:])
+            return i if b[1] == "np.s_" else ("tup", ("call", "slice", tuple(i[1:]), ()) if i[0] == "slice" else i)
+        if b[0] == "idx" and is_const(i) and isinstance(i[1], int) and not isinstance(i[1], bool) and i[1] >= 0 and b[2][0] == "slice":
+            # x[lo:hi][k] is x[lo + k] when the bounds are known and k lies inside
+            lo, hi, st_ = b[2][1:]
+            lo = ("c", 0) if lo == NONE else lo
+            if st_ in (NONE, ("c", 1)) and is_const(lo) and isinstance(lo[1], int) and lo[1] >= 0 and \
+                    (hi == NONE or (is_const(hi) and isinstance(hi[1], int) and hi[1] > lo[1] + i[1])) and \
+                    (hi != NONE or b[1][0] in ("tup", "lst") or (b[1][0] == "call" and b[1][1] == ".nonzero")):
+                return self._load(b[1], ("c", lo[1] + i[1]))
+        v = self._through_column(b, i)
+        if v is not None:
+            return self._load(v[0], v[1])
         if b[0] in ("tup", "lst"):
             if is_const(i) and isinstance(i[1], int) and -len(b) + 1 <= i[1] < len(b) - 1:
                 return b[1:][i[1]]
@@ -463,6 +612,13 @@ class Path:
             return self._alloc("list", ("idx", b, i))
         return self.I.pin(self, ("idx", self._cur(b) if b[0] in ("s", "elem") else b, i))
 
+    def _through_column(self, b, i):
+        """X[:, c][i] addresses X[i, c] (a column view indexed along its only axis): (X, (i, c)) or None"""
+        if b[0] == "idx" and b[2][0] == "tup" and len(b[2]) == 3 and b[2][1] == ("slice", NONE, NONE, NONE) and is_const(b[2][2]) \
+                and isinstance(b[2][2][1], int) and not isinstance(b[2][2][1], bool) and i[0] not in ("tup", "c") and not self.is_list(b[1]):
+            return b[1], ("tup", i, b[2][2])
+        return None
+
     def is_list(self, t):
         if t[0] == "s":
             return self.I.kinds.get(t[1]) == "list"
@@ -477,6 +633,9 @@ class Path:
         args, kws = [], []
         for a in n.args:
             v = self.eval(a, fr)
+            if v[0] == "star" and v[1][0] in ("tup", "lst"):
+                args.extend(v[1][1:])           # f(*(a, b)) is f(a, b)
+                continue
             args.append(v)
         for k in n.keywords:
             v = self.eval(k.value, fr)
@@ -491,10 +650,14 @@ class Path:
         return self.apply(f, args, kws, n, fr)
 
     def apply(self, f, args, kws, n, fr):
+        if f[0] == "partial":
+            # functools.partial(g, *a, **k)(*b, **l) is g(*a, *b, **{**k, **l})
+            later = {k for k, _ in kws}
+            return self.apply(f[1], list(f[2]) + list(args), [(k, v) for k, v in f[3] if k not in later or k == "**"] + list(kws), n, fr)
         if f[0] == "fn":
             fdef, frame, bound = self.fnreg[f[1]]
             if fdef.name not in self.I.noinline and self.depth < 8 and not any(a[0] == "star" for a in args):
-                r = self._inline(fdef, frame, bound, args, kws, fr)
+                r = self._inline(fdef, frame, bound, args, kws, fr, self.fndefaults.get(f[1]))
                 if r is not NotImplemented:
                     return r
             name = fdef.name if bound is None else "self." + fdef.name
@@ -519,7 +682,7 @@ class Path:
             args = [f] + args
         return self._builtin(name, args, kws, n)
 
-    def _inline(self, fdef, frame, bound, args, kws, fr):
+    def _inline(self, fdef, frame, bound, args, kws, fr, defaults=None):
         a = fdef.args
         params = [x.arg for x in a.posonlyargs + a.args]
         static = any(dotted(d) == "staticmethod" for d in fdef.decorator_list)
@@ -555,17 +718,23 @@ class Path:
         allp = [x.arg for x in a.posonlyargs + a.args]
         dflt = dict(zip(allp[::-1], (a.defaults or [])[::-1]))
         rel = getattr(fdef, "_vmod").rel
+        defaults = defaults or {}
         for p_ in params:
             if p_ not in env:
-                if p_ in dflt:
-                    env[p_] = self.eval(dflt[p_], Frame(rel=rel))
+                if p_ in defaults:
+                    env[p_] = defaults[p_]
+                elif p_ in dflt:
+                    env[p_] = self.eval(dflt[p_], Frame(parent=frame, rel=rel))
                 else:
                     return NotImplemented
         for p_, d in zip(kwonly, a.kw_defaults):
             if p_ not in env:
-                if d is None:
+                if p_ in defaults:
+                    env[p_] = defaults[p_]
+                elif d is None:
                     return NotImplemented
-                env[p_] = self.eval(d, Frame(rel=rel))
+                else:
+                    env[p_] = self.eval(d, Frame(parent=frame, rel=rel))
         nf = Frame(parent=frame, rel=rel)
         nf.locals.update(env)
         self.depth += 1
@@ -611,6 +780,17 @@ class Path:
     def _method(self, recv, meth, args, kws, n):
         if recv[0] == "g":
             return self._builtin(recv[1] + "." + meth, args, kws, n)
+        if is_const(recv) and isinstance(recv[1], str) and recv[1] != "<fstring>":
+            lit = lambda x: is_const(x) and isinstance(x[1], (str, int)) and not isinstance(x[1], bool) and x[1] != "<fstring>"  # noqa
+            try:
+                if meth == "format" and all(lit(a) for a in args) and all(k != "**" and lit(v) for k, v in kws):
+                    return ("c", recv[1].format(*[a[1] for a in args], **{k: v[1] for k, v in kws}))
+                if meth == "join" and len(args) == 1 and args[0][0] in ("tup", "lst") and all(lit(a) and isinstance(a[1], str) for a in args[0][1:]):
+                    return ("c", recv[1].join(a[1] for a in args[0][1:]))
+                if meth in ("format", "join"):
+                    return ("c", "<fstring>")
+            except Exception:  # noqa
+                return ("c", "<fstring>")
         if meth == "copy" and not args:
             o = self.obj(recv)
             kind = "list" if self.is_list(recv) else ("dict" if (o and o.kind == "dict") else "arr")
@@ -619,18 +799,46 @@ class Path:
                 self.obj(r).items.update(o.items)
                 self.obj(r).closed = o.closed
             return r
-        if meth == "update":
+        if meth == "update" and len(args) <= 1:
             st = self._st(recv, create=True)
-            if st.kind in ("dict", "opaque") and not args and all(k != "**" for k, _ in kws):
-                for k, v in kws:
-                    self._store(recv, ("c", k), v, n)
-                return NONE
+            if st.kind in ("dict", "opaque") and all(k != "**" for k, _ in kws):
+                pairs, generic = [], None
+                if args:
+                    a = args[0]
+                    o = self.obj(a)
+                    items = self._iter_items(a)
+                    if o is not None and o.kind == "dict" and o.closed:
+                        pairs = list(o.items.items())
+                    elif o is not None and o.kind == "dict" and o.origin[0] == "call" and o.origin[1] == "<DictComp>" and len(o.items) == 1:
+                        generic = (o.origin[2][0],) + list(o.items.items())[0]
+                    elif items is not None and all(x[0] in ("tup", "lst") and len(x) == 3 for x in items):
+                        pairs = [(x[1], x[2]) for x in items]
+                    elif a[0] == "call" and a[1] in ("<GeneratorExp>", "<ListComp>") and len(a[2]) == 2 and a[2][1][0] in ("tup", "lst") and len(a[2][1]) == 3:
+                        generic = (a[2][0], a[2][1][1], a[2][1][2])
+                    elif o is not None and o.kind == "list" and o.origin[0] == "call" and o.origin[1] == "<ListComp>" and len(o.origin[2]) == 2 \
+                            and o.origin[2][1][0] in ("tup", "lst") and len(o.origin[2][1]) == 3:
+                        generic = (o.origin[2][0], o.origin[2][1][1], o.origin[2][1][2])
+                    else:
+                        pairs = None
+                if pairs is not None:
+                    if generic is not None:
+                        # d.update((k(x), v(x)) for x in it) is the loop `for x in it: d[k(x)] = v(x)`
+                        self.loops = self.loops + [generic[0]]
+                        self._store(recv, generic[1], generic[2], n)
+                        self.loops = self.loops[:-1]
+                        if st.kind == "dict":
+                            st.closed = False
+                    for k, v in pairs:
+                        self._store(recv, k, v, n)
+                    for k, v in kws:
+                        self._store(recv, ("c", k), v, n)
+                    return NONE
         if meth == "nonzero" and not args:
             return self._opaque(".nonzero", [recv], [], n)
-        if meth == "items" and not args:
+        if meth in ("items", "keys", "values") and not args:
             st = self._st(recv)
             if st is not None and st.kind == "dict" and st.closed:
-                return ("lst",) + tuple(("tup", k, v) for k, v in st.items.items())
+                return ("lst",) + tuple(("tup", k, v) if meth == "items" else (k if meth == "keys" else v) for k, v in st.items.items())
         return self._opaque("." + meth, [recv] + list(args), kws, n)
 
     def _builtin(self, name, args, kws, n):
@@ -652,8 +860,59 @@ class Path:
             return op(UFUNC1[name], v)
         if name == "np.transpose" and len(args) == 1 and not kws:
             return self._getattr(args[0], "T")
-        if name == "np.nonzero" and len(args) == 1:
+        if name in ("np.nonzero", "np.where") and len(args) == 1 and not kws:
             return self._opaque(".nonzero", args, [], n)
+        if name == "np.flatnonzero" and len(args) == 1 and not kws:
+            return self._load(self._opaque(".nonzero", args, [], n), ("c", 0))
+        # ---- literal tables: enumerate / zip / range / map / reversed over known content are known content
+        if name == "enumerate" and 1 <= len(args) <= 2 and not kws and self._iter_items(args[0]) is not None and \
+                (len(args) == 1 or (is_const(args[1]) and isinstance(args[1][1], int))):
+            k0 = args[1][1] if len(args) == 2 else 0
+            return ("tup",) + tuple(("tup", ("c", k0 + k), x) for k, x in enumerate(self._iter_items(args[0])))
+        if name == "zip" and args and not kws and all(self._iter_items(a) is not None for a in args):
+            cols = [self._iter_items(a) for a in args]
+            return ("tup",) + tuple(("tup",) + tuple(c[k] for c in cols) for k in range(min(len(c) for c in cols)))
+        if name == "range" and 1 <= len(args) <= 3 and not kws and all(is_const(a) and isinstance(a[1], int) and not isinstance(a[1], bool) for a in args):
+            try:
+                r_ = range(*[a[1] for a in args])
+            except ValueError:
+                r_ = None
+            if r_ is not None and len(r_) <= 64:
+                return ("tup",) + tuple(("c", k) for k in r_)
+        if name == "sum" and 1 <= len(args) <= 2 and not kws and self._iter_items(args[0]) is not None and not is_const(args[0]):
+            items = self._iter_items(args[0])
+            acc = args[1] if len(args) == 2 else (items[0] if items else ("c", 0))
+            for x in (items if len(args) == 2 else items[1:]):
+                acc = self._binop("add", acc, x)
+            return acc
+        if name == "reversed" and len(args) == 1 and not kws and args[0][0] in ("tup", "lst"):
+            return ("tup",) + tuple(args[0][1:][::-1])
+        if name == "map" and len(args) >= 2 and not kws and all(self._iter_items(a) is not None for a in args[1:]):
+            cols = [self._iter_items(a) for a in args[1:]]
+            return ("tup",) + tuple(self.apply(args[0], [c[k] for c in cols], [], n, None) for k in range(min(len(c) for c in cols)))
+        if name in ("tuple", "list") and len(args) == 1 and not kws and args[0][0] in ("tup", "lst") and name == "tuple":
+            return ("tup",) + tuple(args[0][1:])
+        if name == "functools.partial" and args:
+            return ("partial", args[0], tuple(args[1:]), tuple(kws))
+        if name == "dict" and len(args) == 1:
+            items = self._iter_items(args[0])
+            o0 = self.obj(args[0])
+            if o0 is not None and o0.kind == "dict" and o0.closed:
+                pairs = list(o0.items.items())
+            elif items is not None and all(x[0] in ("tup", "lst") and len(x) == 3 for x in items):
+                pairs = [(x[1], x[2]) for x in items]
+            else:
+                pairs = None
+            if pairs is not None:
+                r = self._alloc("dict", ("c", "{}"))
+                for k, v in pairs:
+                    self.obj(r).items[k] = v
+                for k, v in kws:
+                    if k == "**":
+                        self.obj(r).closed = False
+                    else:
+                        self.obj(r).items[("c", k)] = v
+                return r
         if name == "getattr" and len(args) >= 2 and is_const(args[1]) and isinstance(args[1][1], str):
             if len(args) == 3:
                 st = self._st(args[0])
@@ -728,6 +987,9 @@ class Path:
 
     # ------------------------------------------------------------------ stores
     def _store(self, base, idx, val, node, aug=False):
+        v = self._through_column(base, idx)
+        if v is not None:
+            base, idx = v
         st = self._st(base, create=True)
         if st.kind == "dict" or (st.kind == "opaque" and is_const(idx) and isinstance(idx[1], str)):
             st.items[idx] = val
@@ -756,7 +1018,7 @@ class Path:
                     self.assign(t, x, fr, node)
             else:
                 for k, t in enumerate(tg.elts):
-                    self.assign(t, self.I.pin(self, ("idx", v, ("c", k))), fr, node)
+                    self.assign(t, self._load(v, ("c", k)), fr, node)
         elif isinstance(tg, ast.Starred):
             self.assign(tg.value, ("star", v), fr, node)
         else:
@@ -822,8 +1084,9 @@ class Path:
             self.block(s.body if self.test(s.test, fr) else s.orelse, fr)
         elif isinstance(s, ast.For):
             it = self.eval(s.iter, fr)
-            if it[0] in ("tup", "lst"):
-                for x in it[1:]:
+            items = self._iter_items(it)
+            if items is not None:
+                for x in items:
                     self.assign(s.target, x, fr, s)
                     try:
                         self.block(s.body, fr)
@@ -849,11 +1112,21 @@ class Path:
                 pass
             self.loops = self.loops[:-1]
         elif isinstance(s, ast.With):
+            suppress = False
             for it in s.items:
                 v = self.eval(it.context_expr, fr)
+                if v[0] == "call" and v[1] == "contextlib.suppress":
+                    suppress = True
                 if it.optional_vars is not None:
                     self.assign(it.optional_vars, v, fr, s)
-            self.block(s.body, fr)
+            if suppress:
+                # `with suppress(E): body` is `try: body / except E: pass`: the body completes or is abandoned
+                k = self.trycount.get(id(s), 0)
+                self.trycount[id(s)] = k + 1
+                if self._truth(("call", "<completes>", (("c", getattr(s, "lineno", 0)), ("c", k)), ())):
+                    self.block(s.body, fr)
+            else:
+                self.block(s.body, fr)
         elif isinstance(s, ast.Try):
             k = self.trycount.get(id(s), 0)
             self.trycount[id(s)] = k + 1
@@ -871,19 +1144,50 @@ class Path:
         elif isinstance(s, ast.Raise):
             raise _Raise()
         elif isinstance(s, (ast.FunctionDef,)):
-            fr.locals[s.name] = self._fnval(s, fr)
+            if not hasattr(s, "_vmod"):
+                s._vmod = _Rel(fr.rel)
+            fv = self._fnval(s, fr)
+            a = s.args
+            allp = [x.arg for x in a.posonlyargs + a.args]
+            dv = {p_: self.eval(d, fr) for p_, d in zip(allp[::-1], (a.defaults or [])[::-1])}
+            dv.update({x.arg: self.eval(d, fr) for x, d in zip(a.kwonlyargs, a.kw_defaults) if d is not None})
+            self.fndefaults[fv[1]] = dv
+            fr.locals[s.name] = fv
         elif isinstance(s, (ast.Break, ast.Continue)):
             raise _LoopCtl()
         elif isinstance(s, (ast.Import, ast.ImportFrom)):
+            canon = import_aliases(s)
             for al in s.names:
                 nm = (al.asname or al.name).split(".")[0]
-                fr.locals[nm] = ("g", al.asname or al.name)
+                fr.locals[nm] = ("g", canon.get(nm, al.asname or al.name))
         elif isinstance(s, ast.ClassDef):
             fr.locals[s.name] = ("g", s.name)
         elif isinstance(s, (ast.Pass, ast.Assert, ast.Global, ast.Nonlocal, ast.Delete)):
             pass
         else:
             raise Unsupported(f"statement {type(s).__name__}")
+
+
+def import_aliases(st):
+    """{local name: canonical dotted name} of an import statement, for the modules of CANON_MODULES only"""
+    out = {}
+    if isinstance(st, ast.Import):
+        for al in st.names:
+            c = CANON_MODULES.get(al.name)
+            if c and al.asname and al.asname != c:
+                out[al.asname] = c
+            elif c and not al.asname and "." not in al.name and al.name != c:
+                out[al.name] = c
+    elif isinstance(st, ast.ImportFrom) and not st.level and st.module:
+        c = CANON_MODULES.get(st.module)
+        for al in st.names:
+            if al.name == "*":
+                continue
+            if c is not None:
+                out[al.asname or al.name] = (c + "." if c else "") + al.name
+            elif CANON_MODULES.get(st.module + "." + al.name):
+                out[al.asname or al.name] = CANON_MODULES[st.module + "." + al.name]
+    return out
 
 
 def _nonneg(t):
@@ -924,6 +1228,16 @@ class Interp:
                 elif isinstance(st, ast.AnnAssign) and isinstance(st.target, ast.Name) and st.target.id == name and st.value is not None:
                     v = st.value
             self._mc[key] = v
+        return self._mc[key]
+
+    def modimports(self, rel):
+        """module-level import bindings of well-known modules: local name -> the dotted name the rules use (`np.x`, `la.x`, `operator.x`)"""
+        key = ("imports", rel)
+        if key not in self._mc:
+            out = {}
+            for st in self.ctx.src.mod(rel).tree.body:
+                out.update(import_aliases(st))
+            self._mc[key] = out
         return self._mc[key]
 
     def modnames(self, rel):
